@@ -10,6 +10,9 @@ CONSTANTS
   Membership = TRUE
   TrackLate = TRUE
   Noise = TRUE
+  Aperture = FALSE
+  MinSize = 1
+  StaleSize = FALSE
   Light = FALSE
 INVARIANT NoViolation
 INVARIANT HeapOrder
